@@ -769,7 +769,12 @@ def seed_basic() -> SeedDoc:
             "LastModified": b"D:20240101"},
         6: Stream({"Length": Ref(19)}, TEXT_OPS + PATH_OPS),      # indirect /Length, as most producers write it
         19: len(TEXT_OPS + PATH_OPS),
-        20: {"Kids": [Ref(21), Ref(22)]},
+        # number tree: the /Kids arrays are indirect objects and one intermediate node is written directly into its
+        # parent's array (round 6: a reference fault that points that node's /Kids at the array it sits in is a cycle
+        # that passes through no node reference)
+        20: {"Kids": Ref(23)},
+        23: [Ref(21), {"Limits": [1, 1], "Kids": Ref(24)}],
+        24: [Ref(22)],
         21: {"Limits": [0, 0], "Nums": [0, {"S": "r", "St": 3}]},
         22: {"Limits": [1, 1], "Nums": [1, {"S": "D", "P": b"p-"}]},
         7: Stream({}, MARKED + INLINE + b"q /Fm1 Do /Im1 Do Q BT /F1 10 Tf 50 50 Td (AaBb) Tj ET\n"),
